@@ -38,6 +38,8 @@ def configurations():
         ("fragments", dict(fragment_slice_count=1)),
         ("asymmetric", dict(wavelet_index=1, wavelet_index_ho=3, dwt_depth=1, dwt_depth_ho=1)),
         ("fields", dict(picture_coding_mode=1, frame_height=8, source_sampling=1)),
+        ("explicit-default-matrix", dict(wavelet_index=1, dwt_depth=2, quantization_matrix="explicit-default")),
+        ("symmetric-v3", dict(wavelet_index=1, dwt_depth=1, fragment_slice_count=2)),
     ]
 
 
@@ -79,6 +81,12 @@ def encode_and_validate(cname, kw):
     """Returns (label, problem, validator state)."""
     from vc2_conformance.encoder.exceptions import UnsatisfiableCodecFeaturesError
 
+    kw = dict(kw)
+    if kw.get("quantization_matrix") == "explicit-default":
+        from vc2_data_tables import QUANTISATION_MATRICES
+
+        wi = kw.get("wavelet_index", 4)
+        kw["quantization_matrix"] = {lv: dict(o) for lv, o in QUANTISATION_MATRICES[(wi, kw.get("wavelet_index_ho", wi), kw.get("dwt_depth", 1), kw.get("dwt_depth_ho", 0))].items()}
     cf = encfeat.make_cf("c16-" + cname, level=1, **kw)
     pics = [encfeat.make_picture(cf, "noise", None, k) for k in range(encfeat.n_pictures_for(cf, 1))]
     try:
@@ -90,11 +98,28 @@ def encode_and_validate(cname, kw):
     v = vc2run.validate(data, limits=False, keep_pictures=False)
     if v.kind != "accept" and type(v.exc).__name__ == "ValueNotAllowedInLevel" and getattr(v.exc, "key", None) in F8_KEYS:
         return "known-F8:" + v.exc.key, None, v.state
+    if v.kind != "accept" and type(v.exc).__name__ == "ValueNotAllowedInLevel" and getattr(v.exc, "key", None) in ("asym_transform_index_flag", "asym_transform_flag") and _is_empty(v.exc.allowed_values):
+        # the level forbids extended transform parameters altogether (= demands major_version < 3)
+        # but the configuration needs version 3: same root cause as major_version in F8
+        return "known-F8:" + v.exc.key + "=<no values>", None, v.state
     if v.kind != "accept" and type(v.exc).__name__ == "QuantisationMatrixValueNotAllowedInLevel":
         return "known-F8:quant_matrix_values", None, v.state
     if v.kind != "accept":
         return "rejected", "encoder produced a stream the validator rejects under the same level definition: %s: %s" % (v.label, str(v.exc)[:200]), v.state
     return "accepted", None, v.state
+
+
+def _is_empty(vs):
+    try:
+        return not any(True for _ in vs.iter_values()) and not _is_any(vs)
+    except Exception:  # noqa
+        return False
+
+
+def _is_any(vs):
+    from vc2_conformance.constraint_table import AnyValue
+
+    return isinstance(vs, AnyValue)
 
 
 _ACTUAL = {}
@@ -142,6 +167,8 @@ def restrictions_for(cname, kw):
     for k in LEVEL_CONSTRAINTS[0].keys():
         if k not in act and k != "level":
             out.append((k, (0,)))
+        if k != "level":
+            out.append((k, ()))  # "<no values>", the real tables' idiom for "this field must not be coded"
     res = []
     for r in out:
         if r not in res:
@@ -155,11 +182,27 @@ def all_cases(tier):
         rs = restrictions_for(cname, kw)
         for pi in range(len(PATTERNS)):
             cases.append((cname, (), pi))
+            if tier != "thorough" and pi in (1, 2):
+                continue  # quick: single restrictions x patterns {'.*', padding-interleaved, real level 1}
             for r in rs:
                 cases.append((cname, (r,), pi))
+        # all pairs of restrictions among the keys of one syntax group (the encoder decides these jointly)
+        groups = (
+            ("asym_transform_index_flag", "wavelet_index_ho", "asym_transform_flag", "dwt_depth_ho", "wavelet_index", "dwt_depth"),
+            ("custom_quant_matrix", "quant_matrix_values", "wavelet_index", "dwt_depth"),
+            ("slices_x", "slices_y", "slices_have_same_dimensions", "slice_prefix_bytes", "slice_bytes_numerator", "slice_bytes_denominator"),
+            ("base_video_format", "custom_dimensions_flag", "custom_frame_rate_flag", "custom_signal_range_flag", "picture_coding_mode"),
+        )
+        seen_pairs = set()
+        for g in groups:
+            grs = [r for r in rs if r[0] in g]
+            for a, b in itertools.combinations(grs, 2):
+                if a[0] != b[0] and (a, b) not in seen_pairs:
+                    seen_pairs.add((a, b))
+                    cases.append((cname, (a, b), 0))
         if tier == "thorough":
             for a, b in itertools.combinations(rs, 2):
-                if a[0] != b[0]:
+                if a[0] != b[0] and (a, b) not in seen_pairs:
                     cases.append((cname, (a, b), 0))
     return cases
 
